@@ -89,6 +89,10 @@ def scenarios(ctx: Ctx, backend: str) -> List[Scenario]:
                                                               inv(["-r", "-d", "/data/b.root", "-o", "/results/pre.root"]),
                                                               inv(["-r", "-o", "/results/other.root"], prepopulate="/results/other.root")], **base))
     S.append(Scenario(backend, "rerun_without_build", [inv(["-r"])], **base))
+    # a second full invocation in the same work area with ANOTHER query's package (its files written before / after the first build)
+    S.append(Scenario(backend, "full_then_full_with_other_sources_older", [inv([]), inv([], new_sources="older")], **base))
+    S.append(Scenario(backend, "full_then_full_with_other_sources_newer", [inv([]), inv(["-o", "/results/second.root"], new_sources="newer")], **base))
+    S.append(Scenario(backend, "build_then_full_with_other_sources", [inv(["-c"]), inv([], new_sources="older"), inv(["-r", "-d", "/data/z.root"])], **base))
     S.append(Scenario(backend, "bad_flags", [inv(["-x"]), inv(["-d"]), inv(["stray"]), inv(["-c", "stray"]), inv(["-r", "-z"]), inv(["-o", "/results", "extra", "args"])], **base))
     S.append(Scenario(backend, "filelist_in_cwd_only", [inv([])], filelist_in_cwd="/data/cwd.root\n"))
     S.append(Scenario(backend, "filelist_both", [inv([])], filelist_in_scripts=DEFAULT_LIST, filelist_in_cwd="/data/cwd.root\n"))
@@ -154,7 +158,24 @@ def judge(backend: str, sc: Scenario, i: int, step: Dict[str, Any], res: Dict[st
     # no fault reached this invocation
     expect_build_ok = f["compile"] and not st.get("rel_exists")
     if f["compile"] and st.get("rel_exists"):
-        return None  # rebuilding over an existing build: not specified by the property
+        # Building again over an existing build area: whether that is possible is not specified by the property (the unchanged
+        # scripts stop at their first mkdir).  What IS specified: exit 0 means the output of THIS run's job is at the destination,
+        # and "builds and runs" means a job built from the sources delivered with this invocation.
+        if rc != 0:
+            return f"a failed rebuild delivered files: {list(res['changed'])}" if res["changed"] else None
+        if not f["run"]:
+            return None
+        dest = expected_destination(backend, f["o"], cont)
+        out = ct.parse_output(cont.read(dest))
+        if out is None or out["run"] != res["run_id"]:
+            return f"second build+run in one work area exited 0 but {dest} does not hold this run's output ({out and out['run']})"
+        src = cont.pkgcopy / ("query.cxx" if backend == "atlas" else "Analyzer.cc")
+        import hashlib
+        want = hashlib.md5(src.read_bytes()).hexdigest()[:12]
+        if not (out["built"] or "").endswith(want):
+            return (f"second build+run in one work area exited 0, but the job that wrote {dest} was built from other sources than the ones delivered with this "
+                    f"invocation (build token {out['built']!r}, delivered source hash {want})")
+        return None
     filelist_missing = f["run"] and f["d"] is None and sc.copts.get("filelist_in_scripts") is None and sc.copts.get("filelist_in_cwd") is None
     if not f["compile"] and not st.get("built"):
         if rc == 0:
@@ -224,6 +245,15 @@ def run_scenario(item) -> Dict[str, Any]:
                 p.parent.mkdir(parents=True, exist_ok=True)
                 if not p.exists():
                     p.write_text("RUN old\nOLD OUTPUT\n")
+            if step.get("new_sources"):
+                # another query's package is delivered: same file names, other content, time stamps before / after the first build
+                import os
+                for fn in ("query.cxx", "query.h", "Analyzer.cc", "ATestRun_eljob.py", "analyzer_cfg.py"):
+                    pf = cont.pkgcopy / fn
+                    if pf.exists():
+                        pf.write_text(pf.read_text() + ("\n# other query\n" if fn.endswith(".py") else "\n// other query\n"))
+                        if step["new_sources"] == "older":
+                            os.utime(pf, (1_000_000_000, 1_000_000_000))
             res = cont.invoke(step["args"], step["fail"])
             why = judge(sc.backend, sc, i, step, res, st, cont)
             # history bookkeeping from what the job itself reported
